@@ -15,7 +15,7 @@
 (* text that is string-equal to the records s..e-1 of the observed stream  *)
 (* to the pair (s, e) and ships anything else verbatim in raw (s = 0).     *)
 (***************************************************************************)
-EXTENDS JasmKnown, Json, IOUtils
+EXTENDS JasmKnown, JasmObserve, Json, IOUtils
 S == INSTANCE JasmScan WITH n <- 0, spans <- {}, firstOnly <- FALSE,
                             pos <- 0, reported <- <<>>, done <- FALSE
 
@@ -30,17 +30,21 @@ vars == <<idx, verdict>>
 Pairs(rep) == [a \in DOMAIN rep |-> <<rep[a].s, rep[a].e>>]
 Aligned(rep) == \A a \in DOMAIN rep : rep[a].s >= 1 /\ rep[a].raw = ""
 
-\* the first failing clause, or "ok"
+\* the first failing clause, or "ok:F" / "ok:N" (found / not found)
 Check(c) ==
     LET P  == Pats[c.p]
-        L  == Lsts[c.l]
-        cx == Cx(L, c.mfm, c.ofm)
-        n  == Len(L)
+        L0 == Lsts[c.l]
+        n  == Len(L0)
+        ranged == c.range # <<>>
     IN
     IF c.outcome # "ok" THEN "rej:NoError"
-    ELSE IF c.stream # Encode(L) THEN "rej:C10_StreamIsEncode"
+    ELSE IF ~ranged /\ c.stream # Encode(L0) THEN "rej:C10_StreamIsEncode"
+    ELSE IF ranged /\ ~StreamWellFormed(c.stream) THEN "rej:C10_WellFormed"
+    ELSE IF ranged /\ ~AllowedTagging(L0, Decode(c.stream), c.range[1], c.range[2]) THEN "rej:C18_Tagging"
     ELSE IF ~(Aligned(c.all) /\ Aligned(c.first)) THEN "rej:C07_Aligned"
-    ELSE LET sp  == Spans(P, cx)
+    ELSE LET L   == IF ranged THEN Decode(c.stream) ELSE L0
+             cx  == Cx(L, c.mfm, c.ofm)
+             sp  == Spans(P, cx)
              all == Pairs(c.all)
              fst == Pairs(c.first)
          IN
